@@ -21,6 +21,8 @@ mod sixlowpan;
 pub(crate) mod multicast;
 #[cfg(feature = "socket-tcp")]
 mod tcp;
+#[cfg(feature = "_verif")]
+mod verif;
 #[cfg(any(feature = "socket-udp", feature = "socket-dns"))]
 mod udp;
 
